@@ -183,6 +183,9 @@ func r03_2(c *Ctx, r *Report) {
 									env[s.fn.Params[i]] = parityOf(a, 0)
 								}
 							}
+							if !dependsOnParam(s.idx, 0) {
+								continue // an internal scan of the helper over all keys, not a selection made for this caller
+							}
 							n++
 							p := parityIn(s.idx, env, 0)
 							construct := uniq(seen, fmt.Sprintf("%s via %s: JIE_QI_IN_USE[%s]", fname(caller), fname(s.fn), describeIndex(s.idx)))
@@ -223,6 +226,7 @@ func r03_3(c *Ctx, r *Report) {
 	loops, _ := findLoops(fn)
 	var li *loopInfo
 	var nearPhi, namePhi *ssa.Phi
+	cachePhis := map[*ssa.Phi]bool{}
 	for _, l := range loops {
 		var ptrs, strs []*ssa.Phi
 		for _, ins := range l.header.Instrs {
@@ -236,8 +240,37 @@ func r03_3(c *Ctx, r *Report) {
 		}
 		if len(ptrs) == 1 {
 			li, nearPhi = l, ptrs[0]
-			if len(strs) == 1 {
-				namePhi = strs[0]
+			// the name kept with the best-so-far: the loop-carried string that is updated from convertJieQi(...);
+			// another loop-carried string is a cached rendering of the best-so-far
+			for _, sp := range strs {
+				var reaches func(v ssa.Value, depth int) bool
+				reaches = func(v ssa.Value, depth int) bool {
+					if depth > 6 {
+						return false
+					}
+					if call, ok := v.(*ssa.Call); ok && call.Common().StaticCallee() != nil && fname(call.Common().StaticCallee()) == "calendar.convertJieQi" {
+						return true
+					}
+					if phi, ok := v.(*ssa.Phi); ok && phi != sp {
+						for _, e := range phi.Edges {
+							if reaches(e, depth+1) {
+								return true
+							}
+						}
+					}
+					return false
+				}
+				isName := false
+				for _, e := range sp.Edges {
+					if reaches(e, 0) {
+						isName = true
+					}
+				}
+				if isName {
+					namePhi = sp
+				} else {
+					cachePhis[sp] = true
+				}
 			}
 		}
 	}
@@ -299,6 +332,16 @@ func r03_3(c *Ctx, r *Report) {
 			case *ssa.Phi:
 				if x == nearPhi {
 					return absPtr{"best", e.nilBest}, true
+				}
+				if cachePhis[x] {
+					if e.nilBest {
+						problems["the cached rendering of the best-so-far is used while there is none"] = true
+						return nil, false
+					}
+					if e.whole {
+						return absMoment{"best", "Ymd"}, true
+					}
+					return absMoment{"best", "YmdHms"}, true
 				}
 			case *ssa.Lookup:
 				if mt, ok := x.X.Type().Underlying().(*types.Map); ok {
@@ -457,7 +500,7 @@ func nearPhiEdgeFrom(phi *ssa.Phi, p *cfgPath) ssa.Value {
 }
 
 func r03_4(c *Ctx, r *Report) {
-	likeWithLikeRule(c, r, "R03.4", func(fn *ssa.Function) bool { return fname(fn) == "calendar.(*Lunar).getNearJieQi" }, 3)
+	likeWithLikeRule(c, r, "R03.4", func(fn *ssa.Function) bool { return fname(fn) == "calendar.(*Lunar).getNearJieQi" }, 1)
 }
 
 func r03_5(c *Ctx, r *Report) {
@@ -674,9 +717,30 @@ func r03_8(c *Ctx, r *Report) {
 			continue
 		}
 		construct := "calendar.(*Lunar)." + name + " filter admits exactly the keys of its kind"
-		// f: what is stored into the slice of conditions
+		// f: what is stored into the slice of conditions, in the view itself or in the unexported helper
+		// it gets the slice from (whose index parity is then judged with the arguments of this call)
 		f := ""
+		builder := fn
+		env := map[*ssa.Parameter]int{}
 		for _, b := range fn.Blocks {
+			for _, ins := range b.Instrs {
+				call, ok := ins.(*ssa.Call)
+				if !ok || call.Common().StaticCallee() != near || len(call.Common().Args) < 3 {
+					continue
+				}
+				if hc, ok := call.Common().Args[2].(*ssa.Call); ok {
+					if h := hc.Common().StaticCallee(); h != nil && h.Blocks != nil && h.Object() != nil && !h.Object().Exported() {
+						builder = h
+						for i, a := range hc.Common().Args {
+							if i < len(h.Params) {
+								env[h.Params[i]] = parityOf(a, 0)
+							}
+						}
+					}
+				}
+			}
+		}
+		for _, b := range builder.Blocks {
 			for _, ins := range b.Instrs {
 				st, ok := ins.(*ssa.Store)
 				if !ok || !isStringType(st.Val.Type()) {
@@ -693,6 +757,9 @@ func r03_8(c *Ctx, r *Report) {
 				if ld, ok := v.(*ssa.UnOp); ok && ld.Op == token.MUL {
 					if ia, ok := ld.X.(*ssa.IndexAddr); ok && isLoadOfTable(ia.X, "calendar.JIE_QI_IN_USE") {
 						f = how
+						if builder != fn && parityIn(ia.Index, env, 0) != parity {
+							f = "?"
+						}
 						continue
 					}
 				}
@@ -751,4 +818,24 @@ func withHelpers(c *Ctx, fn *ssa.Function) []*ssa.Function {
 	}
 	walk(fn, 0)
 	return out
+}
+
+// dependsOnParam: does the index expression (through +, -, *, merges) contain a parameter?
+func dependsOnParam(v ssa.Value, depth int) bool {
+	if depth > 8 {
+		return false
+	}
+	switch x := v.(type) {
+	case *ssa.Parameter:
+		return true
+	case *ssa.BinOp:
+		return dependsOnParam(x.X, depth+1) || dependsOnParam(x.Y, depth+1)
+	case *ssa.Phi:
+		for _, e := range x.Edges {
+			if e != ssa.Value(x) && dependsOnParam(e, depth+1) {
+				return true
+			}
+		}
+	}
+	return false
 }
